@@ -730,6 +730,9 @@ func (ex *Executor) loadedFacts(st *State, v Val) {
 		return
 	}
 	st.assume(rangeFact(v.T, v.Ty))
+	if v.Ty != nil && isString(v.Ty) {
+		st.assume(Ge(strLen(v.T), Num(0)))
+	}
 	if v.Ty != nil {
 		// a reference read from a heap map at an object that already existed when that map version came into
 		// being was stored no later than that (objects allocated later may hold later references)
